@@ -64,6 +64,7 @@ package main
 //@   ensures len(a.Files) == old(len(a.Files)) ==> sameSlice(a.Comment, old(a.Comment))
 //@   ensures len(a.Files) == old(len(a.Files)) + 1 && gNQ ==> len(a.Comment) >= len(filename) + 1 && at(a.Comment, hi(a.Comment)-1) == '\n' && matchAt(a.Comment, hi(a.Comment) - 1 - len(filename), filename)
 //@   at call filepath.ToSlash#1: requires sameStr(path, filename)
+//@   ensures old(err) == nil && sid(path) == sid(dir) ==> r == nil
 
 // main (partial contract: only the clause below is proved): the tree is walked from the
 // cleaned form of the directory argument, so that entry names are relative to it however
